@@ -2,20 +2,21 @@
    ownership discipline, hence (OwnProofs.program_ok_balanced) every normally terminating run is balanced.
 
    PROVED (this file): for the fragment
-       expressions  EPrim EVar EPart ELit EUse1 EUse2 EDerive EConcat EAnd        (fexpr)
-       statements   SSkip SSeq SDecl SExpr SBlock SIf                              (fstmt)
-     cexpr_ok / cstmt_ok: the code Own.compile emits passes own_check from every static state related (Rel) to the
-     compile-time state and leads to a related state; compile_ok: program_ok P = true for every fragment program that
-     compiles; program_balanced_fragment: every normally terminating run of such a program has a balanced ledger.
-   NOT PROVED: the remaining cases of the same two inductions —
+       expressions  EPrim EVar EPart ELit EUse1 EUse2 EDerive EConcat EAnd                               (fexpr)
+       statements   SSkip SSeq SDecl SAssign SAssignPart SExpr SBlock SIf SWhile SDoWhile SBreak SContinue  (fstmt;
+                    SSeq a b requires that a can fall through: no statements behind an unconditional break/continue)
+     cexpr_ok / catom_ok / cstmt_ok: the code Own.compile emits passes own_check from every static state related (Rel)
+     to the compile-time state, under the loop-context invariant LK (the owners below the alloca counter at loop entry
+     are frozen, the scopes from the loop scope upwards hold only younger slots: thr, snap), and leads to a related
+     state on fallthrough while break / continue arrive at the states recorded for the loop (exit_check);
+     compile_ok: program_ok P = true for every fragment program that compiles; program_balanced_fragment.
+   NOT PROVED: the remaining cases of the same inductions —
      cexpr_ok for EFalls (arm result claimed out of the arm scope before that scope is left, joined through a fresh slot),
        EBuild / ECall / EExt (cbuild, cargs, cextargs: owners that are registered nowhere until the callee or container
        took them; ECall needs the outer induction on the inlining depth of inline_d and the IFun rule);
-     cstmt_ok for SAssign / SAssignPart (the pattern of SDecl via move_post, with the target freed in between),
-       the loops SWhile SDoWhile SRepeat SFor SForEach with SBreak / SContinue (context invariant: the owners below the
-       alloca counter at loop entry are frozen and the scopes from the loop scope upwards only hold younger slots, so the
-       frees of loop_exit_frees lead to exactly the owners recorded for the loop exit / head: check_frees + sorted_ext)
-       and SReturn (the same with return_frees and the IFun rule).
+     cstmt_ok for SRepeat (while_ok without the condition scope), SFor (thr for two different heights: the loop scope
+       survives a continue; the body must be a block), SForEach (protected temporary and loop variable: noprot_sc does
+       not hold, oncont / onbrk are not ISkip) and SReturn (needs ECall; the same exit_check with return_frees).
    For those constructs Lower/CompileBounded.v proves program_ok for an explicitly enumerated family, and the check
    evaluates the extracted program_ok on every generated skeleton. *)
 From Coq Require Import List NArith Bool Arith Lia Permutation.
@@ -76,7 +77,8 @@ Record Rel (cs : cstate) (G : ost) : Prop := mkRel {
   r_reg : forall s, In s (reg cs) -> In s (o_own G) \/ In s (o_dead G);
   r_vars : forall s, In s (vslots cs) -> In s (o_own G);
   r_env : forall x p, lookup (c_env cs) x = Some p -> In (root p) (vslots cs);
-  r_dead_lt : forall s, In s (o_dead G) -> s < c_next cs
+  r_dead_lt : forall s, In s (o_dead G) -> s < c_next cs;
+  r_vnd : forall s, In s (vslots cs) -> ~ In s (o_dead G)          (* a variable's slot is never an emptied one *)
 }.
 
 Lemma vslots_reg : forall cs s, In s (vslots cs) -> In s (reg cs).
@@ -100,6 +102,24 @@ Lemma oc_if : forall K a b G, own_check K (IIf a b) G =
 Proof. reflexivity. Qed.
 Lemma iseq_cons_eq : forall c l, iseq (c :: l) = match l with [] => c | _ :: _ => ISeq c (iseq l) end.
 Proof. intros c l. destruct l; reflexivity. Qed.
+Lemma oc_loop : forall K skf cnt test body oncont onbrk onexit G,
+  own_check K (ILoop skf cnt test body oncont onbrk onexit) G =
+  match own_check ctx0 test G with
+  | Some (Some Gtt) =>
+    if sub Gtt G then
+      match check_simple onexit G with
+      | Some Gout =>
+        match own_check (mkCtx (Some (oncont, G)) (Some (onbrk, Gout)) (k_ret K)) body G with
+        | Some None => Some (Some Gout)
+        | Some (Some Gb) => if sub Gb G then Some (Some Gout) else None
+        | None => None
+        end
+      | None => None
+      end
+    else None
+  | _ => None
+  end.
+Proof. reflexivity. Qed.
 Lemma iseq_cons2 : forall i j l, iseq (i :: j :: l) = ISeq i (iseq (j :: l)).
 Proof. reflexivity. Qed.
 
@@ -194,9 +214,10 @@ Lemma Rel_ext : forall cs G cs' V T G', Rel cs G -> ext cs cs' V T -> NoDup (V +
   (forall s, In s (vslots cs) \/ In s V -> In s (o_own G')) ->
   (forall s, In s (o_dead G') -> s < c_next cs') ->
   (forall x p, lookup (c_env cs') x = Some p -> In (root p) (vslots cs) \/ In (root p) V) ->
+  (forall s, In s (vslots cs) \/ In s V -> ~ In s (o_dead G')) ->
   Rel cs' G'.
 Proof.
-  intros cs G cs' V T G' R E NT HS H1 H2 H3 H4 H5. pose proof E as [h [t [E1 [E2 [E4 [E5 [E6 E7]]]]]]].
+  intros cs G cs' V T G' R E NT HS H1 H2 H3 H4 H5 H6. pose proof E as [h [t [E1 [E2 [E4 [E5 [E6 E7]]]]]]].
   constructor.
   - rewrite E2. discriminate.
   - intros sc Hsc. rewrite E2 in Hsc. destruct Hsc as [Hsc|Hsc].
@@ -226,6 +247,7 @@ Proof.
   - intros s Hs. apply H3. apply (ext_vslots _ _ _ _ E). exact Hs.
   - intros x p Hl. apply (ext_vslots _ _ _ _ E). apply H5 with x. exact Hl.
   - exact H4.
+  - intros s Hs. apply H6. apply (ext_vslots _ _ _ _ E). exact Hs.
 Qed.
 
 Lemma Rel_fresh_notin : forall cs G d, Rel cs G -> c_next cs <= d -> ~ In d (o_own G).
@@ -298,13 +320,15 @@ Proof.
     + intro Hh. apply (Hdisj s Hh). apply vslots_reg. exact Hs.
   - exact Henv.
   - intros s Hs. rewrite C2 in Hs. rewrite En. apply (r_dead_lt _ _ R). exact Hs.
+  - intros s Hs. rewrite C2. apply (r_vnd _ _ R). unfold vslots in *. rewrite E. cbn [flat_map]. apply in_or_app. right. rewrite <- Ep. exact Hs.
 Qed.
 
 Lemma Rel_dead_weaken : forall cs G D, Rel cs G ->
   (forall s, In s D -> In s (o_dead G)) -> (forall s, In s (reg cs) -> In s (o_own G) \/ In s D) -> Rel cs (mkO (o_own G) D).
 Proof.
   intros cs G D R H1 H2. destruct R. constructor; cbn [o_own o_dead]; try assumption.
-  intros s Hs. apply r_dead_lt0. apply H1. exact Hs.
+  - intros s Hs. apply r_dead_lt0. apply H1. exact Hs.
+  - intros s Hs Hd. apply (r_vnd0 s Hs). apply H1. exact Hd.
 Qed.
 
 (* claiming a temporary that was registered since cs *)
@@ -380,11 +404,12 @@ Lemma give_fresh_temp : forall cs1 G1 cs' d Gm,
   (forall s, In s (o_dead G1) -> In s (o_dead Gm)) ->
   (forall s, In s (o_dead Gm) -> s < c_next cs') ->
   (forall s, In s (vslots cs1) -> In s (o_own Gm)) ->
+  (forall s, In s (vslots cs1) -> ~ In s (o_dead Gm)) ->
   Rel cs' (give d Gm).
 Proof.
-  intros cs1 G1 cs' d Gm R E Eenv HS Hd H1 H2 H3 H4 H5.
+  intros cs1 G1 cs' d Gm R E Eenv HS Hd H1 H2 H3 H4 H5 H6.
   pose proof (ext_fresh _ _ _ _ E d (or_intror (or_introl eq_refl))) as Hfd.
-  eapply Rel_ext; [exact R | exact E | repeat constructor; intros [] | | | | | |]; cbn [give o_own o_dead app].
+  eapply Rel_ext; [exact R | exact E | repeat constructor; intros [] | | | | | | |]; cbn [give o_own o_dead app].
   - apply ins_sorted. exact HS.
   - intros s Hs. apply ins_In in Hs. destruct Hs as [Hs|Hs]; [right; right; left; auto | left; apply (r_own_reg _ _ R), H1, Hs].
   - intros s [Hs|[[]|[Hs|[]]]].
@@ -396,6 +421,7 @@ Proof.
   - intros s [Hs|[]]. apply ins_In. right. apply H5. exact Hs.
   - intros s Hs. apply del_In in Hs. destruct Hs as [Hs _]. apply H4. exact Hs.
   - intros x p Hl. left. rewrite Eenv in Hl. apply (r_env _ _ R x p Hl).
+  - intros s [Hs|[]] Hdd. apply del_In in Hdd. destruct Hdd as [Hdd _]. exact (H6 s Hs Hdd).
 Qed.
 
 Lemma add_temp_env : forall d b cs, c_env (add_temp d b cs) = c_env cs.
@@ -433,9 +459,10 @@ Lemma step_new_temp : forall cs cs1 G G1 T1 r1 cs' d Gm,
   (forall s, In s (o_dead Gm) -> s < c_next cs') ->
   (forall s, In s (vslots cs1) -> In s (o_own Gm)) ->
   (forall s, s < c_next cs -> In s (o_own G1) -> In s (o_own Gm)) ->
+  (forall s, In s (vslots cs1) -> ~ In s (o_dead Gm)) ->
   expr_post cs cs' G (give d Gm) (T1 ++ [d]) (RTemp d).
 Proof.
-  intros cs cs1 G G1 T1 r1 cs' d Gm P E Eenv HS Hd H1 H2 H3 H4 H5 H6.
+  intros cs cs1 G G1 T1 r1 cs' d Gm P E Eenv HS Hd H1 H2 H3 H4 H5 H6 Hvd.
   pose proof P as [R1 [E1 [N1 [V1 [F1 [D1 _]]]]]].
   pose proof (ext_fresh _ _ _ _ E d (or_intror (or_introl eq_refl))) as Hfd.
   pose proof (ext_next _ _ _ _ E1) as Hn1.
@@ -503,7 +530,7 @@ Section Expr.
       assert (W : ~ In d (o_own G)) by (apply (Rel_fresh_notin cst G d R); unfold d; lia).
       exists (give d G), [d]. cbn [own_check]. unfold writable. rewrite (proj2 (mem_false d (o_own G)) W). cbn [negb].
       split; [reflexivity|]. unfold expr_post.
-      split. { apply (give_fresh_temp cst G _ d G R E); [rewrite add_temp_env; reflexivity | apply (r_sorted _ _ R) | exact W | auto | auto | auto | intros s Hs; rewrite add_temp_next; cbn; apply (r_dead_lt _ _ R) in Hs; lia | apply (r_vars _ _ R)]. }
+      split. { apply (give_fresh_temp cst G _ d G R E); [rewrite add_temp_env; reflexivity | apply (r_sorted _ _ R) | exact W | auto | auto | auto | intros s Hs; rewrite add_temp_next; cbn; apply (r_dead_lt _ _ R) in Hs; lia | apply (r_vars _ _ R) | apply (r_vnd _ _ R)]. }
       split; [exact E|]. split; [repeat constructor; intros []|]. split; [rewrite add_temp_env; reflexivity|]. cbn [give o_own o_dead res_ok].
       split. { intros s Hs. rewrite ins_In. split; [intros [Ed|Ho]; [unfold d in Ed; lia | exact Ho] | intro Ho; right; exact Ho]. }
       split. { intros s Hs. apply del_In. split; [exact Hs|]. intro Ed. subst s. exact (Rel_fresh_notdead cst G d R (Nat.le_refl _) Hs). }
@@ -524,7 +551,7 @@ Section Expr.
       assert (W : ~ In d (o_own G1)) by (apply (Rel_fresh_notin cs1 G1 d R1); unfold d; lia).
       exists (give d G1), (T1 ++ [d]). split.
       + rewrite oc_seq, C1. cbn [own_check]. unfold writable. rewrite (proj2 (mem_false d (o_own G1)) W). reflexivity.
-      + apply (step_new_temp cst cs1 G G1 T1 ra _ d G1 P1 E); auto using (r_sorted _ _ R1), (r_vars _ _ R1).
+      + apply (step_new_temp cst cs1 G G1 T1 ra _ d G1 P1 E); auto using (r_sorted _ _ R1), (r_vars _ _ R1), (r_vnd _ _ R1).
         * rewrite add_temp_env. reflexivity.
         * intros s Hs. rewrite add_temp_next. cbn. apply (r_dead_lt _ _ R1) in Hs. lia.
     - (* EConcat *) apply andb_true_iff in F. destruct F as [Fa Fb].
@@ -569,6 +596,7 @@ Section Expr.
           -- intros s Hs. rewrite add_temp_next. cbn. apply ins_In in Hs. destruct Hs as [Hs|Hs]; [lia | apply (r_dead_lt _ _ R2) in Hs; lia].
           -- intros s Hs. apply del_In. split; [apply (r_vars _ _ R2); exact Hs|]. pose proof (Hvs _ Hs). lia.
           -- intros s Hs Ho. apply del_In. split; [exact Ho | lia].
+          -- intros s Hs Hdd. apply ins_In in Hdd. pose proof (Hvs _ Hs). destruct Hdd as [Hdd|Hdd]; [lia | exact (r_vnd _ _ R2 s Hs Hdd)].
       + destruct (res_place rb) as [pb|] eqn:Erp; [|discriminate H]. unfold fresh in H. cbn [fst snd c_next] in H. inversion H; subst. clear H.
         cbn [res_ok] in Hra. destruct (Hpb pb eq_refl) as [Hb1 [Hb2 Hb3]].
         pose proof (ext_two cs2 (r_ne _ _ R2)) as E. set (c := c_next cs2) in *.
@@ -598,6 +626,8 @@ Section Expr.
              apply del_In in Hs. destruct Hs as [Hs _]. apply (r_dead_lt _ _ R2) in Hs. lia.
           -- intros s Hs. apply del_In. split; [apply ins_In; right; apply (r_vars _ _ R2); exact Hs|]. pose proof (Hvs _ Hs). unfold c. lia.
           -- intros s Hs Ho. apply del_In. split; [apply ins_In; right; exact Ho | unfold c; lia].
+          -- intros s Hs Hdd. apply ins_In in Hdd. pose proof (Hvs _ Hs). destruct Hdd as [Hdd|Hdd]; [unfold c in Hdd; lia|].
+             apply del_In in Hdd. destruct Hdd as [Hdd _]. exact (r_vnd _ _ R2 s Hs Hdd).
     - (* EAnd *) apply andb_true_iff in F. destruct F as [Fa Fb].
       destruct (cexpr inl sg e1 cst) as [[[ia ra] cs1]|] eqn:Ea; [|discriminate H].
       destruct (cexpr inl sg e2 (push_scope cs1)) as [[[ib rb] cs2]|] eqn:Eb; [|discriminate H]. inversion H; subst. clear H.
@@ -673,13 +703,10 @@ Proof.
   intros s [Hs|Hs]; [subst s; exact Hv | apply (E7 s Hs)].
 Qed.
 
-Fixpoint fstmt (s : stmt) : bool :=
+Definition fatom (s : stmt) : bool :=
   match s with
   | SSkip => true
-  | SSeq a b => fstmt a && fstmt b
-  | SDecl _ e | SExpr e => fexpr e
-  | SBlock b => fstmt b
-  | SIf c a b => fexpr c && fstmt a && fstmt b
+  | SDecl _ e | SAssign _ e | SAssignPart _ _ e | SExpr e => fexpr e
   | _ => false
   end.
 
@@ -702,11 +729,12 @@ Lemma move_post : forall cst G cs1 G1 T1 csF V T G' (X : list nat),
   (forall s, In s (o_own G') <-> (In s (o_own G1) /\ ~ In s X) \/ In s V) ->
   (forall s, In s (o_dead G1) -> In s (o_dead G')) -> (forall s, In s (o_dead G') -> s < c_next csF) ->
   (forall x p, lookup (c_env csF) x = Some p -> In (root p) (vslots cst) \/ In (root p) V) ->
+  (forall s, In s (vslots cst) \/ In s V -> ~ In s (o_dead G')) ->
   stmt_post cst csF G G'.
 Proof.
-  intros cst G cs1 G1 T1 csF V T G' X R R1 E1 F1 D1 EF ND Hn HT1 HT2 HX HV HS HO HD HDl Henv.
+  intros cst G cs1 G1 T1 csF V T G' X R R1 E1 F1 D1 EF ND Hn HT1 HT2 HX HV HS HO HD HDl Henv HVd.
   exists V, T. split; [|split; [exact EF|split]].
-  - eapply Rel_ext; [exact R | exact EF | exact ND | exact HS | | | | exact HDl | exact Henv].
+  - eapply Rel_ext; [exact R | exact EF | exact ND | exact HS | | | | exact HDl | exact Henv | exact HVd].
     + intros s Hs. apply HO in Hs. destruct Hs as [[Hs Hx]|Hs]; [|right; left; exact Hs].
       apply (r_own_reg _ _ R1) in Hs. apply (ext_reg _ _ _ _ E1) in Hs. destruct Hs as [Hs|[[]|Hs]]; [left; exact Hs|].
       right. right. apply HT2; assumption.
@@ -758,20 +786,13 @@ Section Stmt.
   Variable inl : nat -> list (option place) -> cstate -> option (instr * res * cstate).
   Variable sg : nat -> option (list (var * mode * bool) * bool).
 
-  Lemma cstmt_ok : forall s, fstmt s = true -> forall cst code cs' G K,
+  Lemma catom_ok : forall s, fatom s = true -> forall cst code cs' G K,
     cstmt inl sg s cst = Some (code, cs') -> Rel cst G ->
     exists G', own_check K code G = Some (Some G') /\ stmt_post cst cs' G G'.
   Proof.
-    induction s; intros F cst code cs' G K H R; cbn [fstmt] in F; try discriminate F; cbn [cstmt] in H.
+    destruct s; intros F cst code cs' G K H R; cbn [fatom] in F; try discriminate F; cbn [cstmt] in H.
     - (* SSkip *) inversion H; subst. exists G. split; [reflexivity|]. exists [], [].
       split; [exact R|]. split; [apply ext_refl, (r_ne _ _ R)|]. split; [intros; tauto | auto].
-    - (* SSeq *) apply andb_true_iff in F. destruct F as [Fa Fb].
-      destruct (cstmt inl sg s1 cst) as [[ia cs1]|] eqn:Ea; [|discriminate H].
-      destruct (cstmt inl sg s2 cs1) as [[ib cs2]|] eqn:Eb; [|discriminate H]. inversion H; subst. clear H.
-      destruct (IHs1 Fa _ _ _ G K Ea R) as [G1 [C1 P1]].
-      assert (R1 : Rel cs1 G1) by (destruct P1 as [? [? [R1 _]]]; exact R1).
-      destruct (IHs2 Fb _ _ _ G1 K Eb R1) as [G2 [C2 P2]].
-      exists G2. split; [rewrite oc_seq, C1; exact C2 | eapply stmt_post_trans; eassumption].
     - (* SDecl *) destruct (cexpr inl sg e cst) as [[[ie re] cs1]|] eqn:Ee; [|discriminate H].
       destruct (cexpr_ok inl sg e F _ _ _ _ G K Ee R) as [G1 [T1 [C1 P1]]].
       pose proof P1 as [R1 [E1 [N1 [V1 [F1 [D1 Hre]]]]]]. pose proof (ext_next _ _ _ _ E1) as Hn1.
@@ -813,6 +834,8 @@ Section Stmt.
           -- intros y q Hl. rewrite Q3 in Hl. unfold cs4, bind in Hl. cbn [c_env lookup] in Hl.
              destruct (Nat.eqb y x); [inversion Hl; subst q; right; left; reflexivity|].
              left. rewrite add_var_env, Ev3 in Hl. cbn [c_env cs2] in Hl. rewrite V1 in Hl. apply (r_env _ _ R y q Hl).
+          -- intros y Hy Hdd. cbn [give take o_dead] in Hdd. apply del_In in Hdd. destruct Hdd as [Hdd Hne]. destruct Hy as [Hy|[Hy|[]]]; [|congruence].
+             apply (r_vnd _ _ R1 y); [apply (ext_vslots _ _ _ _ E1); left; exact Hy | exact Hdd].
       + unfold fresh in H. cbn [claim_or_copy] in H. set (v := c_next cs1) in *.
         set (cs2 := mkC (c_scopes cs1) (S v) (c_env cs1) (c_loop cs1) (c_fun cs1) (c_glob cs1) (c_refs cs1)) in *.
         inversion H; subst code cs'. clear H. cbn [res_ok] in Hre.
@@ -846,63 +869,546 @@ Section Stmt.
           -- intros y q Hl. rewrite Q3 in Hl. unfold cs4, bind in Hl. cbn [c_env lookup] in Hl.
              destruct (Nat.eqb y x); [inversion Hl; subst q; right; left; reflexivity|].
              left. rewrite add_var_env in Hl. cbn [c_env cs2] in Hl. rewrite V1 in Hl. apply (r_env _ _ R y q Hl).
+          -- intros y Hy Hdd. cbn [give o_dead] in Hdd. apply del_In in Hdd. destruct Hdd as [Hdd Hne]. destruct Hy as [Hy|[Hy|[]]]; [|congruence].
+             apply (r_vnd _ _ R1 y); [apply (ext_vslots _ _ _ _ E1); left; exact Hy | exact Hdd].
+    - (* SAssign *) destruct (cexpr inl sg e cst) as [[[ie re] cs1]|] eqn:Ee; [|discriminate H].
+      destruct (cexpr_ok inl sg e F _ _ _ _ G K Ee R) as [G1 [T1 [C1 P1]]].
+      pose proof P1 as [R1 [E1 [N1 [V1 [F1 [D1 Hre]]]]]]. pose proof (ext_next _ _ _ _ E1) as Hn1.
+      destruct re as [|s|p].
+      + inversion H; subst. exists G1. split; [exact C1 | eapply expr_to_stmt_post; exact P1].
+      + destruct (lookup (c_env cs1) x) as [[v| |]|] eqn:El; try discriminate H.
+        assert (Hv : In v (vslots cs1)) by apply (r_env _ _ R1 x _ El).
+        assert (Hv0 : In v (vslots cst)) by (apply (ext_vslots _ _ _ _ E1) in Hv; destruct Hv as [Hv|[]]; exact Hv).
+        assert (Hvl : v < c_next cst) by (apply (r_lt _ _ R), vslots_reg; exact Hv0).
+        cbn [claim_or_copy] in H. cbn [res_ok] in Hre. destruct Hre as [Hs1 Hs2].
+        destruct (claim_ext cst G cs1 [] T1 s R E1 N1 Hs1) as [cs2 [Ec [E2 [Ev2 [En2 _]]]]]. rewrite Ec in H. inversion H; subst code cs'. clear H.
+        pose proof (ext_fresh _ _ _ _ E1 s (or_intror Hs1)) as Hsb.
+        pose proof (r_vars _ _ R1 v Hv) as Hvo.
+        exists (give v (take s (take v G1))). split.
+        * cbn [iseq]. rewrite oc_seq, C1. cbn [own_check]. rewrite (proj2 (mem_In v (o_own G1)) Hvo). cbn [own_check]. unfold writable. cbn [take o_own].
+          assert (M1 : mem v (del v (o_own G1)) = false) by (apply mem_false; intro Hi; apply del_In in Hi; tauto).
+          assert (M2 : mem s (del v (o_own G1)) = true) by (apply mem_In, del_In; split; [exact Hs2 | lia]).
+          rewrite M1, M2. cbn [negb andb]. destruct (Nat.eqb_spec v s) as [Ed|_]; [lia | reflexivity].
+        * apply (move_post cst G cs1 G1 T1 cs2 [] (del s T1) _ [s] R R1 E1 F1 D1 E2).
+          -- cbn [app]. apply del_nodup. exact N1.
+          -- rewrite En2. lia.
+          -- intros y Hy. apply del_In in Hy. split; [tauto|]. intros [Hx|[]]. destruct Hy as [_ Hy]. congruence.
+          -- intros y Hy Hx. apply del_In. split; [exact Hy|]. intro Ey. apply Hx. left. auto.
+          -- intros y [Hy|[]]. subst y. exact Hs1.
+          -- intros y [].
+          -- cbn [give take o_own]. apply ins_sorted, del_sorted, del_sorted, (r_sorted _ _ R1).
+          -- intro y. cbn [give take o_own]. rewrite ins_In, !del_In. cbn [In]. split.
+             ++ intros [Ey|[[Ho Hn1'] Hn2]]; left; [subst y; split; [exact Hvo | intros [Hx|[]]; lia] | split; [exact Ho | intros [Hx|[]]; congruence]].
+             ++ intros [[Ho Hx]|[]]. destruct (Nat.eq_dec y v) as [Ey|Ey]; [left; exact Ey | right; split; [split; [exact Ho | exact Ey]|]].
+                intro Es. apply Hx. left. auto.
+          -- intros y Hy. cbn [give take o_dead]. apply del_In. split; [exact Hy|]. intro Ey. subst y. exact (r_vnd _ _ R1 v Hv Hy).
+          -- intros y Hy. cbn [give take o_dead] in Hy. apply del_In in Hy. destruct Hy as [Hy _]. apply (r_dead_lt _ _ R1) in Hy. rewrite En2. exact Hy.
+          -- intros y q Hl. left. rewrite Ev2, V1 in Hl. apply (r_env _ _ R y q Hl).
+          -- intros y [Hy|[]] Hdd. cbn [give take o_dead] in Hdd. apply del_In in Hdd. destruct Hdd as [Hdd _].
+             apply (r_vnd _ _ R1 y); [apply (ext_vslots _ _ _ _ E1); left; exact Hy | exact Hdd].
+      + destruct (lookup (c_env cs1) x) as [[v| |]|] eqn:El; try discriminate H.
+        assert (Hv : In v (vslots cs1)) by apply (r_env _ _ R1 x _ El).
+        assert (Hv0 : In v (vslots cst)) by (apply (ext_vslots _ _ _ _ E1) in Hv; destruct Hv as [Hv|[]]; exact Hv).
+        assert (Hvl : v < c_next cst) by (apply (r_lt _ _ R), vslots_reg; exact Hv0).
+        unfold fresh in H. cbn [claim_or_copy] in H. set (d := c_next cs1) in *. cbn [res_ok] in Hre.
+        pose proof (ext_one cs1 (r_ne _ _ R1)) as Eo. fold d in Eo.
+        assert (E1d : ext cst (add_temp d false (snd (fresh cs1))) [] (T1 ++ [d])) by apply (ext_trans _ _ _ [] T1 [] [d] E1 Eo).
+        assert (N1d : NoDup (T1 ++ [d])).
+        { apply NoDup_app_intro; [exact N1 | repeat constructor; intros []|]. intros y Hy [Hd|[]]. subst y.
+          pose proof (ext_fresh _ _ _ _ E1 d (or_intror Hy)). unfold d in *. lia. }
+        unfold fresh in E1d. cbn [snd] in E1d.
+        assert (Hdin : In d (T1 ++ [d])) by (apply in_or_app; right; left; reflexivity).
+        destruct (claim_ext cst G _ [] (T1 ++ [d]) d R E1d N1d Hdin) as [cs2 [Ec [E2 [Ev2 [En2 _]]]]].
+        change (S (c_next cs1)) with (S d) in Ec. rewrite Ec in H. inversion H; subst code cs'. clear H.
+        pose proof (r_vars _ _ R1 v Hv) as Hvo.
+        assert (W : ~ In d (o_own G1)) by (apply (Rel_fresh_notin cs1 G1 d R1); unfold d; lia).
+        assert (Hp : In (root p) (o_own G1)) by (apply (r_vars _ _ R1), (ext_vslots _ _ _ _ E1); left; exact Hre).
+        assert (Hnx : c_next cs2 = S d) by (rewrite En2, add_temp_next; reflexivity).
+        exists (give v (take d (take v (give d G1)))). split.
+        * cbn [iseq]. rewrite oc_seq, C1. cbn [own_check]. unfold writable.
+          rewrite (proj2 (mem_false d (o_own G1)) W), (proj2 (mem_In _ (o_own G1)) Hp). cbn [negb andb own_check give o_own o_dead].
+          assert (M0 : mem v (ins d (o_own G1)) = true) by (apply mem_In, ins_In; right; exact Hvo).
+          rewrite M0. cbn [own_check take o_own o_dead]. unfold writable. cbn [o_own].
+          assert (M1 : mem v (del v (ins d (o_own G1))) = false) by (apply mem_false; intro Hi; apply del_In in Hi; tauto).
+          assert (M2 : mem d (del v (ins d (o_own G1))) = true) by (apply mem_In, del_In; split; [apply ins_In; left; reflexivity | unfold d; lia]).
+          cbn [give o_own]. rewrite M1, M2. cbn [negb andb]. destruct (Nat.eqb_spec v d) as [Ed|_]; [unfold d in Ed; lia | reflexivity].
+        * apply (move_post cst G cs1 G1 T1 cs2 [] (del d (T1 ++ [d])) _ [] R R1 E1 F1 D1 E2).
+          -- cbn [app]. apply del_nodup. exact N1d.
+          -- rewrite Hnx. unfold d. lia.
+          -- intros y Hy. apply del_In in Hy. destruct Hy as [Hy Hne]. apply in_app_or in Hy. destruct Hy as [Hy|[Hy|[]]]; [split; [exact Hy | intros []] | congruence].
+          -- intros y Hy _. apply del_In. split; [apply in_or_app; left; exact Hy|]. intro Ey. subst y.
+             pose proof (ext_fresh _ _ _ _ E1 d (or_intror Hy)). unfold d in *. lia.
+          -- intros y [].
+          -- intros y [].
+          -- cbn [give take o_own]. apply ins_sorted, del_sorted, del_sorted, ins_sorted, (r_sorted _ _ R1).
+          -- intro y. cbn [give take o_own]. rewrite ins_In, !del_In, ins_In. cbn [In]. split.
+             ++ intros [Ey|[[[Ey|Ho] Hn1'] Hn2]]; left; [subst y; split; [exact Hvo | intros []] | congruence | split; [exact Ho | intros []]].
+             ++ intros [[Ho _]|[]]. destruct (Nat.eq_dec y v) as [Ey|Ey]; [left; exact Ey | right]. split; [split; [right; exact Ho | exact Ey]|].
+                intro Ey2. subst y. exact (W Ho).
+          -- intros y Hy. cbn [give take o_dead]. rewrite !del_In. split; [split; [exact Hy|]|].
+             ++ apply (r_dead_lt _ _ R1) in Hy. unfold d. lia.
+             ++ intro Ey. subst y. exact (r_vnd _ _ R1 v Hv Hy).
+          -- intros y Hy. cbn [give take o_dead] in Hy. rewrite !del_In in Hy. destruct Hy as [[Hy _] _]. apply (r_dead_lt _ _ R1) in Hy. rewrite Hnx. unfold d. lia.
+          -- intros y q Hl. left. rewrite Ev2, add_temp_env in Hl. cbn [c_env] in Hl. rewrite V1 in Hl. apply (r_env _ _ R y q Hl).
+          -- intros y [Hy|[]] Hdd. cbn [give take o_dead] in Hdd. rewrite !del_In in Hdd. destruct Hdd as [[Hdd _] _].
+             apply (r_vnd _ _ R1 y); [apply (ext_vslots _ _ _ _ E1); left; exact Hy | exact Hdd].
+    - (* SAssignPart *) destruct (cexpr inl sg e cst) as [[[ie re] cs1]|] eqn:Ee; [|discriminate H].
+      destruct (cexpr_ok inl sg e F _ _ _ _ G K Ee R) as [G1 [T1 [C1 P1]]].
+      pose proof P1 as [R1 [E1 [N1 [V1 [F1 [D1 Hre]]]]]]. pose proof (ext_next _ _ _ _ E1) as Hn1.
+      destruct (lookup (c_env cs1) x) as [[v| |]|] eqn:El; try discriminate H.
+      assert (Hv : In v (vslots cs1)) by apply (r_env _ _ R1 x _ El).
+      assert (Hv0 : In v (vslots cst)) by (apply (ext_vslots _ _ _ _ E1) in Hv; destruct Hv as [Hv|[]]; exact Hv).
+      assert (Hvl : v < c_next cst) by (apply (r_lt _ _ R), vslots_reg; exact Hv0).
+      pose proof (r_vars _ _ R1 v Hv) as Hvo.
+      destruct re as [|s|p].
+      + inversion H; subst. exists G1. split; [exact C1 | eapply expr_to_stmt_post; exact P1].
+      + cbn [res_ok] in Hre. destruct Hre as [Hs1 Hs2].
+        destruct (claim_ext cst G cs1 [] T1 s R E1 N1 Hs1) as [cs2 [Ec [E2 [Ev2 [En2 _]]]]]. rewrite Ec in H. inversion H; subst code cs'. clear H.
+        pose proof (ext_fresh _ _ _ _ E1 s (or_intror Hs1)) as Hsb.
+        exists (take s G1). split.
+        * cbn [iseq]. rewrite oc_seq, C1. cbn [own_check].
+          rewrite (proj2 (mem_In v (o_own G1)) Hvo), (proj2 (mem_In s (o_own G1)) Hs2). cbn [andb].
+          destruct (Nat.eqb_spec v s) as [Ed|_]; [lia | reflexivity].
+        * apply (move_post cst G cs1 G1 T1 cs2 [] (del s T1) _ [s] R R1 E1 F1 D1 E2).
+          -- cbn [app]. apply del_nodup. exact N1.
+          -- rewrite En2. lia.
+          -- intros y Hy. apply del_In in Hy. split; [tauto|]. intros [Hx|[]]. destruct Hy as [_ Hy]. congruence.
+          -- intros y Hy Hx. apply del_In. split; [exact Hy|]. intro Ey. apply Hx. left. auto.
+          -- intros y [Hy|[]]. subst y. exact Hs1.
+          -- intros y [].
+          -- cbn [take o_own]. apply del_sorted, (r_sorted _ _ R1).
+          -- intro y. cbn [take o_own]. rewrite del_In. cbn [In]. intuition congruence.
+          -- intros y Hy. exact Hy.
+          -- intros y Hy. cbn [take o_dead] in Hy. apply (r_dead_lt _ _ R1) in Hy. rewrite En2. exact Hy.
+          -- intros y q Hl. left. rewrite Ev2, V1 in Hl. apply (r_env _ _ R y q Hl).
+          -- intros y [Hy|[]] Hdd. cbn [take o_dead] in Hdd.
+             apply (r_vnd _ _ R1 y); [apply (ext_vslots _ _ _ _ E1); left; exact Hy | exact Hdd].
+      + unfold fresh in H. set (d := c_next cs1) in *. cbn [res_ok] in Hre.
+        pose proof (ext_one cs1 (r_ne _ _ R1)) as Eo. fold d in Eo.
+        assert (E1d : ext cst (add_temp d false (snd (fresh cs1))) [] (T1 ++ [d])) by apply (ext_trans _ _ _ [] T1 [] [d] E1 Eo).
+        assert (N1d : NoDup (T1 ++ [d])).
+        { apply NoDup_app_intro; [exact N1 | repeat constructor; intros []|]. intros y Hy [Hd|[]]. subst y.
+          pose proof (ext_fresh _ _ _ _ E1 d (or_intror Hy)). unfold d in *. lia. }
+        unfold fresh in E1d. cbn [snd] in E1d.
+        assert (Hdin : In d (T1 ++ [d])) by (apply in_or_app; right; left; reflexivity).
+        destruct (claim_ext cst G _ [] (T1 ++ [d]) d R E1d N1d Hdin) as [cs2 [Ec [E2 [Ev2 [En2 _]]]]].
+        change (S (c_next cs1)) with (S d) in Ec. rewrite Ec in H. inversion H; subst code cs'. clear H.
+        assert (W : ~ In d (o_own G1)) by (apply (Rel_fresh_notin cs1 G1 d R1); unfold d; lia).
+        assert (Hp : In (root p) (o_own G1)) by (apply (r_vars _ _ R1), (ext_vslots _ _ _ _ E1); left; exact Hre).
+        assert (Hnx : c_next cs2 = S d) by (rewrite En2, add_temp_next; reflexivity).
+        exists (take d (give d G1)). split.
+        * cbn [iseq]. rewrite oc_seq, C1. cbn [own_check]. unfold writable.
+          rewrite (proj2 (mem_false d (o_own G1)) W), (proj2 (mem_In _ (o_own G1)) Hp). cbn [negb andb own_check give o_own o_dead].
+          assert (M0 : mem v (ins d (o_own G1)) = true) by (apply mem_In, ins_In; right; exact Hvo).
+          assert (M2 : mem d (ins d (o_own G1)) = true) by (apply mem_In, ins_In; left; reflexivity).
+          rewrite M0, M2. cbn [andb]. destruct (Nat.eqb_spec v d) as [Ed|_]; [unfold d in Ed; lia | reflexivity].
+        * apply (move_post cst G cs1 G1 T1 cs2 [] (del d (T1 ++ [d])) _ [] R R1 E1 F1 D1 E2).
+          -- cbn [app]. apply del_nodup. exact N1d.
+          -- rewrite Hnx. unfold d. lia.
+          -- intros y Hy. apply del_In in Hy. destruct Hy as [Hy Hne]. apply in_app_or in Hy. destruct Hy as [Hy|[Hy|[]]]; [split; [exact Hy | intros []] | congruence].
+          -- intros y Hy _. apply del_In. split; [apply in_or_app; left; exact Hy|]. intro Ey. subst y.
+             pose proof (ext_fresh _ _ _ _ E1 d (or_intror Hy)). unfold d in *. lia.
+          -- intros y [].
+          -- intros y [].
+          -- cbn [give take o_own]. apply del_sorted, ins_sorted, (r_sorted _ _ R1).
+          -- intro y. cbn [give take o_own]. rewrite del_In, ins_In. cbn [In]. split.
+             ++ intros [[Ey|Ho] Hne]; [congruence | left; split; [exact Ho | intros []]].
+             ++ intros [[Ho _]|[]]. split; [right; exact Ho|]. intro Ey. subst y. exact (W Ho).
+          -- intros y Hy. cbn [give take o_dead]. apply del_In. split; [exact Hy|]. apply (r_dead_lt _ _ R1) in Hy. unfold d. lia.
+          -- intros y Hy. cbn [give take o_dead] in Hy. apply del_In in Hy. destruct Hy as [Hy _]. apply (r_dead_lt _ _ R1) in Hy. rewrite Hnx. unfold d. lia.
+          -- intros y q Hl. left. rewrite Ev2, add_temp_env in Hl. cbn [c_env] in Hl. rewrite V1 in Hl. apply (r_env _ _ R y q Hl).
+          -- intros y [Hy|[]] Hdd. cbn [give take o_dead] in Hdd. apply del_In in Hdd. destruct Hdd as [Hdd _].
+             apply (r_vnd _ _ R1 y); [apply (ext_vslots _ _ _ _ E1); left; exact Hy | exact Hdd].
     - (* SExpr *) destruct (cexpr inl sg e cst) as [[[ie re] cs1]|] eqn:Ee; [|discriminate H]. inversion H; subst. clear H.
       destruct (cexpr_ok inl sg e F _ _ _ _ G K Ee R) as [G1 [T1 [C1 P1]]].
       exists G1. split; [exact C1 | eapply expr_to_stmt_post; exact P1].
-    - (* SBlock *) destruct (cstmt inl sg s (push_scope cst)) as [[ib cs1]|] eqn:Eb; [|discriminate H]. inversion H; subst. clear H.
-      destruct (IHs F _ _ _ G K Eb (Rel_push _ _ R)) as [G1 [C1 P1]].
-      destruct (block_post K cst G cs1 G1 (c_env cst) R P1 (r_env _ _ R)) as [G3 [C3 [O3 [D3 [R3 E3]]]]].
-      exists G3. split; [rewrite <- iseq_cons_eq, oc_iseq_cons, C1; exact C3|].
-      exists [], []. split; [exact R3|]. split; [exact E3|]. split; [intros y _; rewrite O3; tauto|].
-      intros y Hy. rewrite D3. destruct P1 as [? [? [_ [_ [_ D1]]]]]. apply D1. exact Hy.
-    - (* SIf *) apply andb_true_iff in F. destruct F as [F Fb]. apply andb_true_iff in F. destruct F as [Fc Fa].
+  Qed.
+End Stmt.
+
+(* ------------------------------------------------------------------ loops: break / continue *)
+Definition upper (cs : cstate) (h : nat) : list nat := flat_map scope_slots (scopes_down_to (c_scopes cs) h).
+
+Lemma sdt_prefix : forall l h, exists rest, l = scopes_down_to l h ++ rest.
+Proof.
+  induction l as [|sc l IH]; intro h; [exists []; reflexivity|]. cbn [scopes_down_to].
+  destruct (Nat.leb h (length (sc :: l))); [|exists (sc :: l); reflexivity].
+  destruct (IH h) as [rest E]. exists rest. cbn [app]. rewrite <- E. reflexivity.
+Qed.
+Lemma sdt_cons : forall sc l h, h <= S (length l) -> scopes_down_to (sc :: l) h = sc :: scopes_down_to l h.
+Proof. intros sc l h H. cbn [scopes_down_to length]. destruct (Nat.leb_spec h (S (length l))); [reflexivity | lia]. Qed.
+Lemma sdt_short : forall l h, length l < h -> scopes_down_to l h = [].
+Proof. intros [|sc l] h H; [reflexivity|]. cbn [scopes_down_to]. destruct (Nat.leb_spec h (length (sc :: l))); [lia | reflexivity]. Qed.
+
+Record thr (cs : cstate) (h n : nat) : Prop := mkThr {
+  t_up : forall s, In s (upper cs h) -> n <= s;
+  t_low : forall s, In s (reg cs) -> ~ In s (upper cs h) -> s < n;
+  t_next : n <= c_next cs;
+  t_h : h <= height cs }.
+Definition snap (G Gx : ost) (n : nat) : Prop :=
+  sorted (o_own Gx) /\ (forall s, In s (o_own Gx) <-> In s (o_own G) /\ s < n) /\ (forall s, In s (o_dead Gx) -> In s (o_dead G)).
+Definition LK (K : ctx) (cs : cstate) (G : ost) : Prop :=
+  match c_loop cs with
+  | None => True
+  | Some (hb, hc) => exists Gout Ghead nb nc,
+      k_brk K = Some (ISkip, Gout) /\ k_cont K = Some (ISkip, Ghead) /\
+      thr cs hb nb /\ thr cs hc nc /\ snap G Gout nb /\ snap G Ghead nc
+  end.
+
+Lemma thr_ext : forall cs cs' V T h n, thr cs h n -> ext cs cs' V T -> thr cs' h n.
+Proof.
+  intros cs cs' V T h n [U L N Hh] E. pose proof E as [h0 [t [E1 [E2 [_ [_ [E6 E7]]]]]]].
+  unfold height in Hh. rewrite E1 in Hh. cbn [length] in Hh.
+  assert (Hu : forall s, In s (upper cs' h) <-> In s (upper cs h) \/ In s V \/ In s T).
+  { intro s. unfold upper. rewrite E1, E2, !sdt_cons by exact Hh. cbn [flat_map]. unfold scope_slots at 1 3. cbn [sc_vars sc_temps].
+    rewrite !in_app_iff, !map_app, !in_app_iff, !map_map. cbn [v_slot t_slot]. rewrite !map_id. tauto. }
+  constructor.
+  - intros s Hs. apply Hu in Hs. destruct Hs as [Hs|Hs]; [apply U; exact Hs|].
+    assert (In s (V ++ T)) by (apply in_or_app; exact Hs). apply E7 in H. lia.
+  - intros s Hs Hn. apply (ext_reg _ _ _ _ E) in Hs. destruct Hs as [Hs|Hs]; [|exfalso; apply Hn, Hu; right; exact Hs].
+    apply L; [exact Hs|]. intro Hx. apply Hn, Hu. left. exact Hx.
+  - lia.
+  - unfold height. rewrite E2. cbn [length]. exact Hh.
+Qed.
+Lemma thr_push : forall cs h n, thr cs h n -> thr (push_scope cs) h n.
+Proof.
+  intros cs h n [U L N Hh]. unfold height in Hh.
+  assert (Hu : upper (push_scope cs) h = upper cs h).
+  { unfold upper, push_scope, with_scopes. cbn [c_scopes]. rewrite sdt_cons by lia. reflexivity. }
+  constructor; rewrite ?Hu; try assumption. unfold height, push_scope, with_scopes. cbn [c_scopes length]. lia.
+Qed.
+Lemma thr_same : forall cs cs' h n, thr cs h n -> c_scopes cs' = c_scopes cs -> c_next cs <= c_next cs' -> thr cs' h n.
+Proof.
+  intros cs cs' h n [U L N Hh] Es En. constructor; unfold upper, reg, height in *; rewrite ?Es; try assumption. lia.
+Qed.
+Lemma snap_step : forall G G' Gx n nx, snap G Gx n -> n <= nx ->
+  (forall s, s < nx -> (In s (o_own G') <-> In s (o_own G))) -> (forall s, In s (o_dead G) -> In s (o_dead G')) -> snap G' Gx n.
+Proof.
+  intros G G' Gx n nx [S1 [S2 S3]] Hn F D. split; [exact S1|]. split; [|auto].
+  intro s. rewrite S2. split; intros [Ho Hl]; (split; [apply (F s); [lia | exact Ho] | exact Hl]).
+Qed.
+
+Lemma LK_step : forall K cs cs' G G', LK K cs G -> stmt_post cs cs' G G' -> LK K cs' G'.
+Proof.
+  intros K cs cs' G G' H [V [T [R' [E [F D]]]]]. unfold LK in *. destruct (ext_loop_fun _ _ _ _ E) as [El _]. rewrite El.
+  destruct (c_loop cs) as [[hb hc]|]; [|exact Logic.I].
+  destruct H as [Gout [Ghead [nb [nc [K1 [K2 [T1 [T2 [S1 S2]]]]]]]]]. exists Gout, Ghead, nb, nc.
+  split; [exact K1|]. split; [exact K2|]. split; [eapply thr_ext; eassumption|]. split; [eapply thr_ext; eassumption|].
+  split; [apply (snap_step G G' Gout nb (c_next cs) S1 (t_next _ _ _ T1) F D) | apply (snap_step G G' Ghead nc (c_next cs) S2 (t_next _ _ _ T2) F D)].
+Qed.
+Lemma LK_push : forall K cs G, LK K cs G -> LK K (push_scope cs) G.
+Proof.
+  intros K cs G H. unfold LK in *. change (c_loop (push_scope cs)) with (c_loop cs). destruct (c_loop cs) as [[hb hc]|]; [|exact Logic.I].
+  destruct H as [Gout [Ghead [nb [nc [K1 [K2 [T1 [T2 [S1 S2]]]]]]]]]. exists Gout, Ghead, nb, nc.
+  split; [exact K1|]. split; [exact K2|]. split; [apply thr_push; exact T1|]. split; [apply thr_push; exact T2|]. split; assumption.
+Qed.
+Lemma LK_same : forall K cs cs' G G', LK K cs G -> c_scopes cs' = c_scopes cs -> c_loop cs' = c_loop cs -> c_next cs <= c_next cs' ->
+  o_own G' = o_own G -> (forall s, In s (o_dead G) -> In s (o_dead G')) -> LK K cs' G'.
+Proof.
+  intros K cs cs' G G' H Es El En Eo D. unfold LK in *. rewrite El. destruct (c_loop cs) as [[hb hc]|]; [|exact Logic.I].
+  destruct H as [Gout [Ghead [nb [nc [K1 [K2 [T1 [T2 [S1 S2]]]]]]]]]. exists Gout, Ghead, nb, nc.
+  split; [exact K1|]. split; [exact K2|]. split; [eapply thr_same; eassumption|]. split; [eapply thr_same; eassumption|].
+  split; [apply (snap_step G G' Gout nb nb S1 (le_n _)) | apply (snap_step G G' Ghead nc nc S2 (le_n _))]; try exact D; intros s _; rewrite Eo; tauto.
+Qed.
+
+Lemma exit_frees_all : forall scs, (forall sc, In sc scs -> noprot_sc sc) ->
+  flat_map (exit_frees false) scs = map IFree (flat_map scope_slots scs).
+Proof.
+  induction scs as [|sc scs IH]; intro H; [reflexivity|]. cbn [flat_map]. rewrite map_app, IH, exit_frees_noprot; [reflexivity | |].
+  - apply H. left. reflexivity.
+  - intros x Hx. apply H. right. exact Hx.
+Qed.
+
+(* the frees emitted for a break / continue lead to the state recorded for the loop exit / head *)
+Lemma exit_check : forall K cs G h n Gx, Rel cs G -> thr cs h n -> snap G Gx n ->
+  exists G1, own_check K (iseq (flat_map (exit_frees false) (scopes_down_to (c_scopes cs) h))) G = Some (Some G1) /\ sub G1 Gx = true.
+Proof.
+  intros K cs G h n Gx R [U L N Hh] [S1 [S2 S3]].
+  destruct (sdt_prefix (c_scopes cs) h) as [rest Er].
+  rewrite exit_frees_all.
+  2:{ intros sc Hsc. apply (r_np _ _ R). rewrite Er. apply in_or_app. left. exact Hsc. }
+  assert (Hreg : reg cs = upper cs h ++ flat_map scope_slots rest).
+  { unfold reg, upper. rewrite Er at 1. apply flat_map_app. }
+  pose proof (r_nd _ _ R) as ND. rewrite Hreg in ND.
+  destruct (check_frees K (upper cs h) G (NoDup_app_l _ _ _ ND)) as [G1 [C1 [D1 [O1 So1]]]].
+  { intros s Hs. apply (r_reg _ _ R). rewrite Hreg. apply in_or_app. left. exact Hs. }
+  exists G1. split; [exact C1|]. unfold sub. apply andb_true_iff. split.
+  - replace (o_own G1) with (o_own Gx); [apply leq_refl|]. apply sorted_ext; [exact S1 | apply So1, (r_sorted _ _ R)|].
+    intro s. rewrite S2, O1. split; intros [Ho Hx]; (split; [exact Ho|]).
+    + intro Hu. apply U in Hu. lia.
+    + apply L; [apply (r_own_reg _ _ R); exact Ho | exact Hx].
+  - apply subset_incl. intros s Hs. rewrite D1. apply S3. exact Hs.
+Qed.
+
+(* ------------------------------------------------------------------ all statements of the fragment *)
+(* the statement can fall through (it does not end in a break / continue on every path) *)
+Fixpoint thru (s : stmt) : bool :=
+  match s with
+  | SBreak | SContinue | SReturn _ => false
+  | SSeq a b => thru a && thru b
+  | SBlock b => thru b
+  | SIf _ a b => thru a || thru b
+  | _ => true
+  end.
+
+Fixpoint fstmt (s : stmt) : bool :=
+  match s with
+  | SSkip | SDecl _ _ | SAssign _ _ | SAssignPart _ _ _ | SExpr _ => fatom s
+  | SSeq a b => fstmt a && fstmt b && thru a       (* no statements behind an unconditional break / continue *)
+  | SBlock b => fstmt b
+  | SIf c a b => fexpr c && fstmt a && fstmt b
+  | SWhile c b | SDoWhile b c => fexpr c && fstmt b
+  | SBreak | SContinue => true
+  | _ => false
+  end.
+
+Definition post3 (cst : cstate) (G : ost) (cs' : cstate) (G' : ost) : Prop :=
+  Rel cs' G' /\ (forall s, s < c_next cst -> (In s (o_own G') <-> In s (o_own G))) /\ (forall s, In s (o_dead G) -> In s (o_dead G')).
+
+Lemma ext_head_gen : forall cp l cs2 V T, c_scopes cp = empty_scope :: l -> ext cp cs2 V T ->
+  exists h, c_scopes cs2 = h :: l /\ (forall s, In s (scope_slots h) <-> In s V \/ In s T).
+Proof.
+  intros cp l cs2 V T Ep [h [t [E1 [E2 _]]]]. rewrite Ep in E1. inversion E1; subst h t.
+  eexists. split; [exact E2|]. unfold scope_slots. cbn [sc_vars sc_temps empty_scope app]. rewrite !map_map. cbn [v_slot t_slot]. rewrite !map_id.
+  intro s. rewrite in_app_iff. tauto.
+Qed.
+
+(* a statement run in a scope of its own (block, arm of Wenn, loop body): cp is cs0 with an empty scope pushed *)
+Lemma arm_ok : forall K cs0 G0 cp ib cs1 Ro V T (env0 : list (var * place)),
+  Rel cs0 G0 -> c_scopes cp = empty_scope :: c_scopes cs0 -> c_next cp = c_next cs0 ->
+  own_check K ib G0 = Some Ro -> ext cp cs1 V T ->
+  (forall G1, Ro = Some G1 -> post3 cp G0 cs1 G1) ->
+  (forall x p, lookup env0 x = Some p -> In (root p) (vslots cs0)) ->
+  exists Xo, own_check K (iseq (ib :: exit_frees false (hd empty_scope (c_scopes cs1)))) G0 = Some Xo /\
+    c_scopes (leave_scope cs1 env0) = c_scopes cs0 /\ c_next cs0 <= c_next cs1 /\ c_loop cs1 = c_loop cp /\ c_fun cs1 = c_fun cp /\
+    (Ro <> None -> Xo <> None) /\
+    (forall G3, Xo = Some G3 -> o_own G3 = o_own G0 /\ (forall s, In s (o_dead G0) -> In s (o_dead G3)) /\ Rel (leave_scope cs1 env0) G3).
+Proof.
+  intros K cs0 G0 cp ib cs1 Ro V T env0 R Ep En C E HP Henv.
+  destruct (ext_head_gen cp _ cs1 V T Ep E) as [h1 [Eh1 Hh1]].
+  destruct (ext_loop_fun _ _ _ _ E) as [El Ef]. pose proof (ext_next _ _ _ _ E) as Hnx. rewrite En in Hnx.
+  assert (Els : c_scopes (leave_scope cs1 env0) = c_scopes cs0) by (unfold leave_scope; cbn [c_scopes]; rewrite Eh1; reflexivity).
+  rewrite oc_iseq_cons, C. destruct Ro as [G1|].
+  - destruct (HP G1 eq_refl) as [R1 [F1 D1]]. rewrite Eh1. cbn [hd].
+    destruct (scope_exit K cs1 G1 h1 (c_scopes cs0) (leave_scope cs1 env0) R1 Eh1 (r_ne _ _ R) Els eq_refl) as [G3 [C3 [D3 [O3 R3]]]].
+    { intros x p Hl. unfold vslots. rewrite Els. apply (Henv x p). exact Hl. }
+    exists (Some G3). split; [exact C3|]. split; [exact Els|]. split; [exact Hnx|]. split; [exact El|]. split; [exact Ef|].
+    split; [discriminate|]. intros G3' E3. inversion E3; subst G3'. split; [|split; [|exact R3]].
+    + apply (own_back cs0 G0 cs1 G1 h1 G3 R R1 Eh1); [| rewrite <- En; exact F1 | exact O3 | apply (r_sorted _ _ R3)].
+      intros s Hs. apply Hh1 in Hs. pose proof (ext_fresh _ _ _ _ E s Hs) as Hf. rewrite En in Hf. exact (proj1 Hf).
+    + intros s Hs. rewrite D3. apply D1. exact Hs.
+  - exists None. split; [reflexivity|]. split; [exact Els|]. split; [exact Hnx|]. split; [exact El|]. split; [exact Ef|].
+    split; [congruence|]. intros G3 E3. discriminate E3.
+Qed.
+
+Definition sres (cst : cstate) (G : ost) (K : ctx) (code : instr) (cs' : cstate) : Prop :=
+  exists Ro V T, own_check K code G = Some Ro /\ ext cst cs' V T /\ (forall G', Ro = Some G' -> post3 cst G cs' G').
+Definition sres2 (s : stmt) (cst : cstate) (G : ost) (K : ctx) (code : instr) (cs' : cstate) : Prop :=
+  exists Ro V T, own_check K code G = Some Ro /\ ext cst cs' V T /\ (forall G', Ro = Some G' -> post3 cst G cs' G') /\ (thru s = true -> Ro <> None).
+Lemma sres2_sres : forall s cst G K code cs', sres2 s cst G K code cs' -> sres cst G K code cs'.
+Proof. intros s cst G K code cs' [Ro [V [T [A [B [C _]]]]]]. exists Ro, V, T. auto. Qed.
+
+Lemma post3_stmt_post : forall cst G cs' G' V T, ext cst cs' V T -> post3 cst G cs' G' -> stmt_post cst cs' G G'.
+Proof. intros cst G cs' G' V T E [R [F D]]. exists V, T. auto. Qed.
+
+Lemma set_loop_scopes : forall cs l, c_scopes (set_loop cs l) = c_scopes cs /\ c_next (set_loop cs l) = c_next cs /\
+  c_env (set_loop cs l) = c_env cs /\ c_fun (set_loop cs l) = c_fun cs /\ c_loop (set_loop cs l) = l.
+Proof. intros. repeat split. Qed.
+
+Section Stmt2.
+  Variable inl : nat -> list (option place) -> cstate -> option (instr * res * cstate).
+  Variable sg : nat -> option (list (var * mode * bool) * bool).
+
+  Lemma while_ok : forall skf c b, fexpr c = true ->
+    (forall cst code cs' G K, cstmt inl sg b cst = Some (code, cs') -> Rel cst G -> LK K cst G -> sres cst G K code cs') ->
+    forall cst code cs' G K,
+    match cstmt inl sg b (set_loop (push_scope cst) (Some (height (push_scope cst), height (push_scope cst)))) with
+    | Some (ib, cs1) =>
+      match cexpr inl sg c (push_scope (set_loop (leave_scope cs1 (c_env cst)) (c_loop cst))) with
+      | Some (ic, _, cs2) =>
+        Some (ILoop skf None (iseq (ic :: exit_frees false (hd empty_scope (c_scopes cs2))))
+                    (iseq (ib :: exit_frees false (hd empty_scope (c_scopes cs1)))) ISkip ISkip ISkip, pop_scope cs2)
+      | None => None
+      end
+    | None => None
+    end = Some (code, cs') ->
+    Rel cst G -> LK K cst G -> sres cst G K code cs'.
+  Proof.
+    intros skf c b Fc IHb cst code cs' G K H R HK.
+    set (h := height (push_scope cst)) in *. set (cp := set_loop (push_scope cst) (Some (h, h))) in *.
+    destruct (cstmt inl sg b cp) as [[ib cs1]|] eqn:Eb; [|discriminate H].
+    set (cq := push_scope (set_loop (leave_scope cs1 (c_env cst)) (c_loop cst))) in *.
+    destruct (cexpr inl sg c cq) as [[[ic rc] cs2]|] eqn:Ec; [|discriminate H]. inversion H; subst code cs'. clear H.
+    set (K' := mkCtx (Some (ISkip, G)) (Some (ISkip, G)) (k_ret K)).
+    assert (Rp : Rel cp G).
+    { apply (Rel_same_scopes (push_scope cst) G cp (Rel_push _ _ R)); [reflexivity | apply Nat.le_refl|].
+      intros x p Hl. apply (r_env _ _ (Rel_push _ _ R) x p Hl). }
+    assert (HKp : LK K' cp G).
+    { unfold LK. cbn [cp set_loop c_loop]. exists G, G, (c_next cst), (c_next cst).
+      assert (Hup : upper cp h = []).
+      { unfold upper. cbn [cp set_loop push_scope with_scopes c_scopes]. rewrite sdt_cons by (unfold h, height, push_scope, with_scopes; cbn [c_scopes length]; lia).
+        rewrite sdt_short by (unfold h, height, push_scope, with_scopes; cbn [c_scopes length]; lia). reflexivity. }
+      assert (Ht : thr cp h (c_next cst)).
+      { constructor; rewrite ?Hup.
+        - intros s [].
+        - intros s Hs _. apply (r_lt _ _ R). exact Hs.
+        - apply Nat.le_refl.
+        - apply Nat.le_refl. }
+      assert (Hs : snap G G (c_next cst)).
+      { split; [apply (r_sorted _ _ R)|]. split; [|auto]. intro s. split; [|tauto]. intro Ho. split; [exact Ho|].
+        apply (r_lt _ _ R), (r_own_reg _ _ R), Ho. }
+      repeat (split; [first [reflexivity | assumption]|]). assumption. }
+    destruct (IHb cp ib cs1 G K' Eb Rp HKp) as [Ro [V [T [Cb [Eb' Pb]]]]].
+    destruct (arm_ok K' cst G cp ib cs1 Ro V T (c_env cst) R eq_refl eq_refl Cb Eb' Pb (r_env _ _ R))
+      as [Xo [CX [Els [Hnx [El1 [Ef1 [_ HX]]]]]]].
+    (* the condition, in its own scope *)
+    set (cl := set_loop (leave_scope cs1 (c_env cst)) (c_loop cst)) in *.
+    assert (Rl : Rel cl G).
+    { apply (Rel_same_scopes cst G cl R); [exact Els | exact Hnx|]. intros x p Hl. apply (r_env _ _ R x p Hl). }
+    destruct (cexpr_ok inl sg c Fc cq ic rc cs2 G ctx0 Ec (Rel_push _ _ Rl)) as [G2 [T2 [C2 P2]]].
+    pose proof P2 as [R2 [E2 [N2 [V2 [F2 [D2 _]]]]]].
+    destruct (ext_head_gen cq (c_scopes cl) cs2 [] T2 eq_refl E2) as [h2 [Eh2 Hh2]].
+    assert (Elp : c_scopes (pop_scope cs2) = c_scopes cl) by (unfold pop_scope, with_scopes; cbn [c_scopes]; rewrite Eh2; reflexivity).
+    destruct (scope_exit ctx0 cs2 G2 h2 (c_scopes cl) (pop_scope cs2) R2 Eh2 (r_ne _ _ Rl) Elp eq_refl) as [Gt [Ct [Dt [Ot Rt]]]].
+    { intros x p Hl. unfold vslots. rewrite Elp. unfold pop_scope, with_scopes in Hl. cbn [c_env] in Hl. rewrite V2 in Hl. apply (r_env _ _ Rl x p Hl). }
+    assert (Eot : o_own Gt = o_own G).
+    { apply (own_back cl G cs2 G2 h2 Gt Rl R2 Eh2); [| exact F2 | exact Ot | apply (r_sorted _ _ Rt)].
+      intros s Hs. apply Hh2 in Hs. destruct Hs as [[]|Hs]. pose proof (ext_fresh _ _ _ _ E2 s (or_intror Hs)) as Hf. exact (proj1 Hf). }
+    assert (Ctest : own_check ctx0 (iseq (ic :: exit_frees false (hd empty_scope (c_scopes cs2)))) G = Some (Some Gt)).
+    { rewrite oc_iseq_cons, C2, Eh2. exact Ct. }
+    assert (Hsub : forall Gx, o_own Gx = o_own G -> (forall s, In s (o_dead G) -> In s (o_dead Gx)) -> sub Gx G = true).
+    { intros Gx Eo Dx. unfold sub. rewrite Eo, leq_refl. apply subset_incl. exact Dx. }
+    exists (Some G), [], []. split; [|split].
+    - rewrite oc_loop. rewrite <- !iseq_cons_eq. rewrite Ctest. rewrite (Hsub Gt Eot) by (intros s Hs; rewrite Dt; apply D2; exact Hs).
+      cbn [check_simple]. fold K'. rewrite CX. destruct Xo as [G3|]; [|reflexivity].
+      destruct (HX G3 eq_refl) as [Eo3 [D3 _]]. rewrite (Hsub G3 Eo3 D3). reflexivity.
+    - destruct (ext_loop_fun _ _ _ _ E2) as [El2 Ef2].
+      apply (ext_same_scopes cst cst _ [] [] (ext_refl cst (r_ne _ _ R))).
+      + rewrite Elp. exact Els.
+      + unfold pop_scope, with_scopes. cbn [c_loop]. rewrite El2. reflexivity.
+      + unfold pop_scope, with_scopes. cbn [c_fun]. rewrite Ef2. cbn [cq cl push_scope with_scopes set_loop leave_scope c_fun]. rewrite Ef1. reflexivity.
+      + unfold pop_scope, with_scopes. cbn [c_next]. pose proof (ext_next _ _ _ _ E2). cbn [cq cl push_scope with_scopes set_loop leave_scope c_next] in H. lia.
+    - intros G' EG. inversion EG; subst G'. split; [|split; [intros; tauto | auto]].
+      apply (Rel_same_scopes cst G (pop_scope cs2) R); [rewrite Elp; exact Els | |].
+      + unfold pop_scope, with_scopes. cbn [c_next]. pose proof (ext_next _ _ _ _ E2). cbn [cq cl push_scope with_scopes set_loop leave_scope c_next] in H. lia.
+      + intros x p Hl. unfold pop_scope, with_scopes in Hl. cbn [c_env] in Hl. rewrite V2 in Hl. apply (r_env _ _ R x p Hl).
+  Qed.
+  Ltac atom_case F H R K :=
+    destruct (catom_ok inl sg _ F _ _ _ _ K H R) as [G1 [C1 [V [T [R1 [E1 [F1 D1]]]]]]];
+    exists (Some G1), V, T; split; [exact C1|]; split; [exact E1|]; split; [|discriminate];
+    intros G' EG; inversion EG; subst G'; split; [exact R1 | split; assumption].
+
+  Lemma cstmt_ok : forall s, fstmt s = true -> forall cst code cs' G K,
+    cstmt inl sg s cst = Some (code, cs') -> Rel cst G -> LK K cst G -> sres2 s cst G K code cs'.
+  Proof.
+    induction s; intros F cst code cs' G K H R HK; cbn [fstmt] in F; try discriminate F.
+    - (* SSkip *) atom_case F H R K.
+    - (* SSeq *) apply andb_true_iff in F. destruct F as [F Ft]. apply andb_true_iff in F. destruct F as [Fa Fb]. cbn [cstmt] in H.
+      destruct (cstmt inl sg s1 cst) as [[ia cs1]|] eqn:Ea; [|discriminate H].
+      destruct (cstmt inl sg s2 cs1) as [[ib cs2]|] eqn:Eb; [|discriminate H]. inversion H; subst. clear H.
+      destruct (IHs1 Fa _ _ _ G K Ea R HK) as [Ro1 [V1 [T1 [C1 [E1 [P1 N1]]]]]].
+      destruct Ro1 as [G1|]; [|exfalso; exact (N1 Ft eq_refl)].
+      destruct (P1 G1 eq_refl) as [R1 [F1 D1]].
+      assert (HK1 : LK K cs1 G1) by (apply (LK_step K cst cs1 G G1 HK); exists V1, T1; auto).
+      destruct (IHs2 Fb _ _ _ G1 K Eb R1 HK1) as [Ro2 [V2 [T2 [C2 [E2 [P2 N2]]]]]].
+      exists Ro2, (V1 ++ V2), (T1 ++ T2). split; [rewrite oc_seq, C1; exact C2|]. split; [eapply ext_trans; eassumption|]. split.
+      + intros G2 EG. destruct (P2 G2 EG) as [R2 [F2 D2]]. split; [exact R2|]. split; [|auto].
+        intros y Hy. rewrite <- (F1 y Hy). apply F2. pose proof (ext_next _ _ _ _ E1). lia.
+      + cbn [thru]. intro Ht. apply andb_true_iff in Ht. apply N2. tauto.
+    - (* SDecl *) atom_case F H R K.
+    - (* SAssign *) atom_case F H R K.
+    - (* SAssignPart *) atom_case F H R K.
+    - (* SExpr *) atom_case F H R K.
+    - (* SBlock *) cbn [cstmt] in H.
+      destruct (cstmt inl sg s (push_scope cst)) as [[ib cs1]|] eqn:Eb; [|discriminate H]. inversion H; subst. clear H.
+      destruct (IHs F _ _ _ G K Eb (Rel_push _ _ R) (LK_push _ _ _ HK)) as [Ro [V [T [C1 [E1 [P1 N1]]]]]].
+      destruct (arm_ok K cst G (push_scope cst) ib cs1 Ro V T (c_env cst) R eq_refl eq_refl C1 E1 P1 (r_env _ _ R))
+        as [Xo [CX [Els [Hnx [El1 [Ef1 [NX HX]]]]]]].
+      exists Xo, [], []. split; [rewrite <- iseq_cons_eq; exact CX|]. split; [|split].
+      + apply (ext_same_scopes cst cst _ [] [] (ext_refl cst (r_ne _ _ R))); [exact Els | exact El1 | exact Ef1 | exact Hnx].
+      + intros G3 EG. destruct (HX G3 EG) as [Eo [D3 R3]]. split; [exact R3|]. split; [intros y _; rewrite Eo; tauto | exact D3].
+      + cbn [thru]. intro Ht. apply NX, N1, Ht.
+    - (* SIf *) apply andb_true_iff in F. destruct F as [F Fb]. apply andb_true_iff in F. destruct F as [Fc Fa]. cbn [cstmt] in H.
       destruct (cexpr inl sg c cst) as [[[ic rc] cs0]|] eqn:Ec; [|discriminate H].
       destruct (cstmt inl sg s1 (push_scope cs0)) as [[ia cs1]|] eqn:Ea; [|discriminate H].
       destruct (cstmt inl sg s2 (push_scope (leave_scope cs1 (c_env cs0)))) as [[ib cs2]|] eqn:Eb; [|discriminate H].
       inversion H; subst. clear H.
       destruct (cexpr_ok inl sg c Fc _ _ _ _ G K Ec R) as [G0 [T0 [C0 P0]]].
       pose proof P0 as [R0 [E0 [N0 [V0 [F0 [D0 _]]]]]].
-      destruct (IHs1 Fa _ _ _ G0 K Ea (Rel_push _ _ R0)) as [Ga [Ca Pa]].
-      destruct (block_post K cs0 G0 cs1 Ga (c_env cs0) R0 Pa (r_env _ _ R0)) as [G3a [C3a [O3a [D3a [R3a E3a]]]]].
+      assert (HK0 : LK K cs0 G0) by (apply (LK_step K cst cs0 G G0 HK); eapply expr_to_stmt_post; exact P0).
+      destruct (IHs1 Fa _ _ _ G0 K Ea (Rel_push _ _ R0) (LK_push _ _ _ HK0)) as [Roa [Va [Ta [Ca [Ea' [Pa Na]]]]]].
+      destruct (arm_ok K cs0 G0 (push_scope cs0) ia cs1 Roa Va Ta (c_env cs0) R0 eq_refl eq_refl Ca Ea' Pa (r_env _ _ R0))
+        as [Xa [CXa [Elsa [Hnxa [Ela [Efa [NXa HXa]]]]]]].
       set (csm := leave_scope cs1 (c_env cs0)) in *.
       assert (Rm : Rel csm G0).
-      { apply (Rel_same_scopes cs0 G0 csm R0).
-        - destruct E3a as [h [t [X1 [X2 _]]]]. rewrite X2, X1. cbn [map]. rewrite !app_nil_r. destruct h; reflexivity.
-        - apply (ext_next _ _ _ _ E3a).
-        - intros y q Hl. unfold csm, leave_scope in Hl. cbn [c_env] in Hl. apply (r_env _ _ R0 y q Hl). }
-      destruct (IHs2 Fb _ _ _ G0 K Eb (Rel_push _ _ Rm)) as [Gb [Cb Pb]].
-      destruct (block_post K csm G0 cs2 Gb (c_env cs0) Rm Pb) as [G3b [C3b [O3b [D3b [R3b E3b]]]]].
-      { intros y q Hl. assert (Hv : In (root q) (vslots cs0)) by apply (r_env _ _ R0 y q Hl).
-        destruct E3a as [h [t [X1 [X2 _]]]]. unfold vslots in *. fold csm in X2. rewrite X2. rewrite X1 in Hv.
-        cbn [flat_map sc_vars map] in *. rewrite app_nil_r. exact Hv. }
-      set (G4 := mkO (o_own G3a) (inter (o_dead G3a) (o_dead G3b))).
-      exists G4. split.
-      + rewrite oc_seq, C0, oc_if. rewrite <- !iseq_cons_eq. rewrite oc_iseq_cons, Ca, C3a, oc_iseq_cons, Cb, C3b. cbn [join]. unfold G4. rewrite O3a, O3b, leq_refl. reflexivity.
-      + assert (Da : forall y, In y (o_dead G0) -> In y (o_dead G3a)).
-        { intros y Hy. rewrite D3a. destruct Pa as [? [? [_ [_ [_ D]]]]]. apply D. exact Hy. }
-        assert (Db : forall y, In y (o_dead G0) -> In y (o_dead G3b)).
-        { intros y Hy. rewrite D3b. destruct Pb as [? [? [_ [_ [_ D]]]]]. apply D. exact Hy. }
-        assert (R4 : Rel (leave_scope cs2 (c_env cs0)) G4).
-        { assert (R3b' : Rel (leave_scope cs2 (c_env cs0)) (mkO (o_own G3a) (o_dead G3b))).
-          { destruct R3b. constructor; cbn [o_own o_dead]; rewrite ?O3a, <- ?O3b; assumption. }
-          apply (Rel_dead_weaken _ _ (inter (o_dead G3a) (o_dead G3b)) R3b'); cbn [o_own o_dead].
-          - intros y Hy. apply inter_In in Hy. tauto.
-          - intros y Hy. assert (Hr0 : In y (reg cs0)).
-            { destruct E3b as [h [t [X1 [X2 _]]]]. destruct E3a as [h' [t' [Y1 [Y2 _]]]]. unfold reg in *. rewrite X2 in Hy.
-              fold csm in Y2. rewrite Y2 in X1. inversion X1; subst h t. rewrite Y1. cbn [map flat_map] in *. rewrite !app_nil_r in Hy.
-              destruct h'; exact Hy. }
-            destruct (r_reg _ _ R0 y Hr0) as [Ho|Ho]; [left; rewrite O3a; exact Ho | right; apply inter_In; split; [apply Da | apply Db]; exact Ho]. }
-        exists [], T0. split; [exact R4|]. split.
-        { apply (ext_same_scopes cst cs0 _ [] T0 E0).
-          - destruct E3b as [h [t [X1 [X2 _]]]]. destruct E3a as [h' [t' [Y1 [Y2 _]]]]. rewrite X2. fold csm in Y2. rewrite Y2 in X1.
-            inversion X1; subst h t. rewrite Y1. cbn [map]. rewrite !app_nil_r. destruct h'; reflexivity.
-          - destruct (ext_loop_fun _ _ _ _ E3b) as [L1 _]. destruct (ext_loop_fun _ _ _ _ E3a) as [L2 _]. fold csm in L2. congruence.
-          - destruct (ext_loop_fun _ _ _ _ E3b) as [_ L1]. destruct (ext_loop_fun _ _ _ _ E3a) as [_ L2]. fold csm in L2. congruence.
-          - pose proof (ext_next _ _ _ _ E3b). pose proof (ext_next _ _ _ _ E3a). fold csm in H0. lia. }
-        cbn [G4 o_own o_dead]. split; [intros y Hy; rewrite O3a; apply F0; exact Hy|].
-        intros y Hy. apply inter_In. split; [apply Da | apply Db]; apply D0; exact Hy.
+      { apply (Rel_same_scopes cs0 G0 csm R0 Elsa Hnxa). intros y q Hl. apply (r_env _ _ R0 y q Hl). }
+      assert (HKm : LK K csm G0) by (apply (LK_same K cs0 csm G0 G0 HK0 Elsa Ela Hnxa eq_refl); auto).
+      destruct (IHs2 Fb _ _ _ G0 K Eb (Rel_push _ _ Rm) (LK_push _ _ _ HKm)) as [Rob [Vb [Tb [Cb [Eb' [Pb Nb]]]]]].
+      destruct (arm_ok K csm G0 (push_scope csm) ib cs2 Rob Vb Tb (c_env cs0) Rm eq_refl eq_refl Cb Eb' Pb)
+        as [Xb [CXb [Elsb [Hnxb [Elb [Efb [NXb HXb]]]]]]].
+      { intros y q Hl. unfold vslots. rewrite Elsa. apply (r_env _ _ R0 y q Hl). }
+      set (csF := leave_scope cs2 (c_env cs0)) in *.
+      assert (EF : ext cst csF [] T0).
+      { apply (ext_same_scopes cst cs0 _ [] T0 E0); [rewrite Elsb; exact Elsa | | | ].
+        - change (c_loop csF) with (c_loop cs2). rewrite Elb. change (c_loop (push_scope csm)) with (c_loop cs1). exact Ela.
+        - change (c_fun csF) with (c_fun cs2). rewrite Efb. change (c_fun (push_scope csm)) with (c_fun cs1). exact Efa.
+        - change (c_next csF) with (c_next cs2). change (c_next csm) with (c_next cs1) in Hnxb. lia. }
+      assert (HrelF : forall Gx, Rel csm Gx -> Rel csF Gx).
+      { intros Gx Rx. apply (Rel_same_scopes csm Gx csF Rx Elsb Hnxb). intros y q Hl. unfold vslots. rewrite Elsa. apply (r_env _ _ R0 y q Hl). }
+      assert (Hfin : forall Gx, o_own Gx = o_own G0 -> (forall y, In y (o_dead G0) -> In y (o_dead Gx)) -> Rel csF Gx -> post3 cst G csF Gx).
+      { intros Gx Eo Dx Rx. split; [exact Rx|]. split; [intros y Hy; rewrite Eo; apply F0; exact Hy | intros y Hy; apply Dx, D0, Hy]. }
+      assert (Hjoin : exists Rj, join Xa Xb = Some Rj /\ (forall Gj, Rj = Some Gj -> post3 cst G csF Gj) /\ ((Xa <> None \/ Xb <> None) -> Rj <> None)).
+      { destruct Xa as [Ga|]; destruct Xb as [Gb|]; cbn [join].
+        - destruct (HXa Ga eq_refl) as [Eoa [Da Ra]]. destruct (HXb Gb eq_refl) as [Eob [Db Rb]].
+          rewrite Eoa, Eob, leq_refl. eexists. split; [reflexivity|]. split; [|discriminate].
+          intros Gj EG. inversion EG; subst Gj. apply Hfin; cbn [o_own o_dead].
+          + reflexivity.
+          + intros y Hy. apply inter_In. split; [apply Da | apply Db]; exact Hy.
+          + assert (Rb' : Rel csF (mkO (o_own G0) (o_dead Gb))) by (destruct Rb; constructor; cbn [o_own o_dead]; rewrite <- ?Eob; assumption).
+            apply (Rel_dead_weaken _ _ (inter (o_dead Ga) (o_dead Gb)) Rb'); cbn [o_own o_dead].
+            * intros y Hy. apply inter_In in Hy. tauto.
+            * intros y Hy. assert (Hr0 : In y (reg cs0)) by (unfold reg in *; rewrite <- Elsa, <- Elsb; exact Hy).
+              destruct (r_reg _ _ R0 y Hr0) as [Ho|Ho]; [left; exact Ho | right; apply inter_In; split; [apply Da | apply Db]; exact Ho].
+        - destruct (HXa Ga eq_refl) as [Eoa [Da Ra]]. eexists. split; [reflexivity|]. split; [|discriminate].
+          intros Gj EG. inversion EG; subst Gj. apply Hfin; [exact Eoa | exact Da | apply HrelF; exact Ra].
+        - destruct (HXb Gb eq_refl) as [Eob [Db Rb]]. eexists. split; [reflexivity|]. split; [|discriminate].
+          intros Gj EG. inversion EG; subst Gj. apply Hfin; [exact Eob | exact Db | exact Rb].
+        - eexists. split; [reflexivity|]. split; [intros Gj EG; discriminate EG | intros [Hx|Hx]; congruence]. }
+      destruct Hjoin as [Rj [Ej [Pj Nj]]].
+      exists Rj, [], T0. split; [rewrite oc_seq, C0, oc_if; rewrite <- !iseq_cons_eq; rewrite CXa, CXb; exact Ej|]. split; [exact EF|]. split; [exact Pj|].
+      cbn [thru]. intro Ht. apply Nj. apply orb_true_iff in Ht. destruct Ht as [Ht|Ht]; [left; apply NXa, Na, Ht | right; apply NXb, Nb, Ht].
+    - (* SWhile *) apply andb_true_iff in F. destruct F as [Fc Fb]. cbn [cstmt] in H.
+      destruct (while_ok false c s Fc (fun cst0 code0 cs0 G0 K0 H0 R0 HK0 => sres2_sres _ _ _ _ _ _ (IHs Fb cst0 code0 cs0 G0 K0 H0 R0 HK0)) cst code cs' G K H R HK)
+        as [Ro [V [T [C1 [E1 P1]]]]].
+      exists Ro, V, T. split; [exact C1|]. split; [exact E1|]. split; [exact P1|].
+      intros _ En. subst Ro. clear - C1 H. 
+      (* the loop check never answers "no fallthrough" *)
+      destruct (cstmt inl sg s _) as [[ib cs1]|]; [|discriminate H]. destruct (cexpr inl sg c _) as [[[ic rc] cs2]|]; [|discriminate H].
+      inversion H; subst code. rewrite oc_loop in C1.
+      destruct (own_check ctx0 _ G) as [[Gtt|]|]; try discriminate C1. destruct (sub Gtt G); [|discriminate C1].
+      cbn [check_simple] in C1. destruct (own_check _ _ G) as [[Gb|]|]; try discriminate C1. destruct (sub Gb G); discriminate C1.
+    - (* SDoWhile *) apply andb_true_iff in F. destruct F as [Fc Fb]. cbn [cstmt] in H.
+      destruct (while_ok true c s Fc (fun cst0 code0 cs0 G0 K0 H0 R0 HK0 => sres2_sres _ _ _ _ _ _ (IHs Fb cst0 code0 cs0 G0 K0 H0 R0 HK0)) cst code cs' G K H R HK)
+        as [Ro [V [T [C1 [E1 P1]]]]].
+      exists Ro, V, T. split; [exact C1|]. split; [exact E1|]. split; [exact P1|].
+      intros _ En. subst Ro. clear - C1 H.
+      destruct (cstmt inl sg s _) as [[ib cs1]|]; [|discriminate H]. destruct (cexpr inl sg c _) as [[[ic rc] cs2]|]; [|discriminate H].
+      inversion H; subst code. rewrite oc_loop in C1.
+      destruct (own_check ctx0 _ G) as [[Gtt|]|]; try discriminate C1. destruct (sub Gtt G); [|discriminate C1].
+      cbn [check_simple] in C1. destruct (own_check _ _ G) as [[Gb|]|]; try discriminate C1. destruct (sub Gb G); discriminate C1.
+    - (* SBreak *) cbn [cstmt] in H. unfold loop_exit_frees in H. unfold LK in HK.
+      destruct (c_loop cst) as [[hb hc]|] eqn:El; [|discriminate H]. inversion H; subst. clear H.
+      destruct HK as [Gout [Ghead [nb [nc [K1 [K2 [T1 [T2 [S1 S2]]]]]]]]].
+      destruct (exit_check K cs' G hb nb Gout R T1 S1) as [G1 [C1 Sb]].
+      exists None, [], []. split; [|split; [apply ext_refl, (r_ne _ _ R)|split; [intros G' EG; discriminate EG | cbn [thru]; discriminate]]].
+      rewrite (oc_iseq_app K _ [IBreak] G G1 C1). cbn [iseq own_check]. rewrite K1. cbn [check_simple]. rewrite Sb. reflexivity.
+    - (* SContinue *) cbn [cstmt] in H. unfold loop_exit_frees in H. unfold LK in HK.
+      destruct (c_loop cst) as [[hb hc]|] eqn:El; [|discriminate H]. inversion H; subst. clear H.
+      destruct HK as [Gout [Ghead [nb [nc [K1 [K2 [T1 [T2 [S1 S2]]]]]]]]].
+      destruct (exit_check K cs' G hc nc Ghead R T2 S2) as [G1 [C1 Sb]].
+      exists None, [], []. split; [|split; [apply ext_refl, (r_ne _ _ R)|split; [intros G' EG; discriminate EG | cbn [thru]; discriminate]]].
+      rewrite (oc_iseq_app K _ [IContinue] G G1 C1). cbn [iseq own_check]. rewrite K2. cbn [check_simple]. rewrite Sb. reflexivity.
   Qed.
-End Stmt.
+End Stmt2.
 
 (* ------------------------------------------------------------------ whole programs of the fragment *)
 Lemma Rel_init : Rel init_cstate (mkO [] []).
@@ -918,15 +1424,18 @@ Proof.
   - intros ? [].
   - intros x p H. discriminate H.
   - intros ? [].
+  - intros ? [].
 Qed.
 
-Definition fprogram (P : program) : bool := fstmt (p_main P).
+Definition fprogram (P : program) : bool := fstmt (p_main P) && thru (p_main P).
 
 Theorem compile_ok : forall P, fprogram P = true -> compile P <> None -> program_ok P = true.
 Proof.
   intros P F Hc. unfold program_ok. unfold compile in *.
   destruct (cstmt (inline_d P (S (length (p_funs P)))) (sig_of P) (p_main P) init_cstate) as [[im cs]|] eqn:Em; [|congruence].
-  destruct (cstmt_ok _ _ (p_main P) F _ _ _ (mkO [] []) ctx0 Em Rel_init) as [G1 [C1 [V [T [R1 [E1 _]]]]]].
+  unfold fprogram in F. apply andb_true_iff in F. destruct F as [F Ft].
+  destruct (cstmt_ok _ _ (p_main P) F _ _ _ (mkO [] []) ctx0 Em Rel_init Logic.I) as [Ro [V [T [C1 [E1 [P1 N1]]]]]].
+  destruct Ro as [G1|]; [|exfalso; exact (N1 Ft eq_refl)]. destruct (P1 G1 eq_refl) as [R1 _].
   destruct E1 as [h [t [X1 [X2 _]]]]. cbn in X1. inversion X1; subst h t. rewrite X2. cbn [hd].
   set (h := {| sc_vars := sc_vars empty_scope ++ map (fun s => mkVar s false) V; sc_temps := sc_temps empty_scope ++ map (fun s => mkTmp s false) T |}) in *.
   assert (Hreg : reg cs = scope_slots h) by (unfold reg; rewrite X2; cbn [flat_map]; apply app_nil_r).
